@@ -1,5 +1,368 @@
 package main
 
-func corrRest(seed uint64, n int, t tools, id *int)                               {}
-func searchRest(seed uint64, n int, t tools, evals *int, outcomes map[string]int) {}
-func runWitnessRest(w string, t tools, evals *int, verbose bool)                  {}
+import (
+	"bytes"
+	"fmt"
+	"os"
+	"strconv"
+	"strings"
+
+	"github.com/Eyevinn/mp4ff/mp4"
+	"verifharness/hx"
+)
+
+// ---------------------------------------------------------------- correspondence lines R F A D M
+//
+//	R id d samples obs          resegmenter tool: obs = ok:<count,count,...> | err | panic
+//	F id duration frags obs     Fragmentify: frags = samples/samples|samples..., obs = ok:<counts> | err | panic
+//	A id ids ops obs            AddFullSampleToTrack interleavings: ops = tid:dts:dur,...  (cto = op index)
+//	                            obs = <errors>|<layout>|id=dts:cto.dts:cto;id=...
+//	D id tfhd trun trex samples obs   AddSampleDefaultValues: obs = dur:size:flags/...
+//	M id samples1 samples2 obs  combine-segs tool: obs = ok|<layout>|1=dts...;2=dts... | err | panic
+func corrRest(seed uint64, n int, t tools, id *int) {
+	r := hx.NewRng(seed ^ 0xf4a6)
+	if t.reseg != "" {
+		for i := 0; i < n; i++ {
+			fs := genFragSpec(r, 40)
+			d := genResegD(r, fs)
+			if i%40 == 39 {
+				d = 0
+			}
+			if i%10 == 3 {
+				fs.styp = false
+			}
+			res := runReseg(fs, d, t)
+			obs := res.class
+			if res.class == "ok" {
+				obs = "ok:" + countsString(res.segs)
+			}
+			fmt.Fprintf(out, "R\tr%d\t%d\t%s\t%s\n", *id, d, modelSamples(res.input), obs)
+			*id++
+		}
+	}
+	for i := 0; i < 2*n; i++ {
+		fs := genFragSpec(r, 40)
+		dur := genFragyDur(r, fs)
+		res := runFragmentify(fs, dur)
+		obs := res.class
+		if res.class == "ok" {
+			obs = "ok:" + countsString(res.out)
+		}
+		fr := make([]string, len(res.in))
+		for k, f := range res.in {
+			fr[k] = modelSamples(f)
+		}
+		fmt.Fprintf(out, "F\tf%d\t%d\t%s\t%s\n", *id, dur, strings.Join(fr, "|"), obs)
+		*id++
+	}
+	for i := 0; i < 4*n; i++ {
+		emitAddCase(r, id)
+	}
+	for i := 0; i < 6*n; i++ {
+		emitDefaultsCase(r, id)
+	}
+	if t.combine != "" {
+		for i := 0; i < n/2+1; i++ {
+			v, a := genCombinePair(r)
+			res := runCombine(v, a, t)
+			obs := res.class
+			if res.class == "ok" {
+				obs = fmt.Sprintf("ok|%s|1=%s;2=%s", res.layout, dtsList(res.got[0]), dtsList(res.got[1]))
+			}
+			fmt.Fprintf(out, "M\tm%d\t%s\t%s\t%s\n", *id, modelSamples(res.inputs[0]), modelSamples(res.inputs[1]), obs)
+			*id++
+		}
+	}
+}
+
+func dtsList(ss []flat) string {
+	if len(ss) == 0 {
+		return "-"
+	}
+	p := make([]string, len(ss))
+	for i, s := range ss {
+		p[i] = strconv.FormatUint(s.dts, 10)
+	}
+	return strings.Join(p, ".")
+}
+
+func genFragyDur(r *hx.Rng, fs fragSpec) uint32 {
+	var tot uint64
+	for _, s := range fs.samples {
+		tot += uint64(s.dur)
+	}
+	switch r.Intn(7) {
+	case 0:
+		return 0
+	case 1:
+		return 1
+	case 2:
+		return uint32(tot/3 + 1)
+	case 3:
+		return uint32(tot + 1)
+	case 4:
+		return fs.samples[0].dur * uint32(r.Range(1, 5))
+	case 5:
+		return 4294967295
+	default:
+		return uint32(r.Range(1, int(tot%100000)+2))
+	}
+}
+
+func genCombinePair(r *hx.Rng) (fragSpec, fragSpec) {
+	v := genFragSpec(r, 30)
+	v.video = true
+	a := genFragSpec(r, 30)
+	a.video = false
+	if r.Intn(10) == 0 {
+		v.samples = nil // an input fragment without samples
+	}
+	return v, a
+}
+
+// emitAddCase: CreateMultiTrackFragment(ids) + interleaved AddFullSampleToTrack, encoded, decoded, read back.
+func emitAddCase(r *hx.Rng, id *int) {
+	var ids []uint32
+	switch r.Intn(8) {
+	case 0:
+		ids = []uint32{1}
+	case 1:
+		ids = []uint32{2, 2, 3} // duplicate id: first match wins
+	case 2:
+		ids = []uint32{3, 1, 2}
+	default:
+		ids = []uint32{1, 2}
+	}
+	nops := r.Range(0, 14)
+	type op struct {
+		tid uint32
+		dts uint64
+		dur uint32
+	}
+	ops := make([]op, nops)
+	run := r.Pick(1, 1, 2, 4)
+	cur := ids[r.Intn(len(ids))]
+	for i := range ops {
+		if i%run == 0 {
+			cur = ids[r.Intn(len(ids))]
+			if r.Intn(12) == 0 {
+				cur = 9 // unknown track id
+			}
+		}
+		ops[i] = op{cur, uint64(r.Range(0, 5000)), uint32(r.Range(0, 50))}
+	}
+	frag, err := mp4.CreateMultiTrackFragment(7, ids)
+	if err != nil {
+		panic(err)
+	}
+	nerr := 0
+	for i, o := range ops {
+		fs := mp4.FullSample{Sample: mp4.Sample{Flags: 0x02000000, Dur: o.dur, Size: 2, CompositionTimeOffset: int32(i)},
+			DecodeTime: o.dts, Data: []byte{byte(i), byte(o.tid)}}
+		if err := frag.AddFullSampleToTrack(fs, o.tid); err != nil {
+			nerr++
+		}
+	}
+	var buf bytes.Buffer
+	obs := ""
+	if err := frag.Encode(&buf); err != nil {
+		obs = "encode-error"
+	} else if f, err := decodeBytes(buf.Bytes()); err != nil || len(f.Segments) != 1 || len(f.Segments[0].Fragments) != 1 {
+		obs = "decode-error"
+	} else {
+		g := f.Segments[0].Fragments[0]
+		seen := map[uint32]bool{}
+		var per []string
+		for _, tid := range ids {
+			if seen[tid] {
+				continue
+			}
+			seen[tid] = true
+			ss, err := fragSamples(g, &mp4.TrexBox{TrackID: tid}, tid)
+			if err != nil {
+				per = append(per, fmt.Sprintf("%d=err", tid))
+				continue
+			}
+			p := make([]string, len(ss))
+			for k, s := range ss {
+				p[k] = fmt.Sprintf("%d:%d", s.dts, s.cto)
+			}
+			x := "-"
+			if len(p) > 0 {
+				x = strings.Join(p, ".")
+			}
+			per = append(per, fmt.Sprintf("%d=%s", tid, x))
+		}
+		obs = fmt.Sprintf("%d|%s|%s", nerr, layoutOf(g), strings.Join(per, ";"))
+	}
+	idss := make([]string, len(ids))
+	for i, x := range ids {
+		idss[i] = strconv.Itoa(int(x))
+	}
+	opss := make([]string, len(ops))
+	for i, o := range ops {
+		opss[i] = fmt.Sprintf("%d:%d:%d", o.tid, o.dts, o.dur)
+	}
+	opsStr := "-"
+	if len(opss) > 0 {
+		opsStr = strings.Join(opss, ",")
+	}
+	fmt.Fprintf(out, "A\ta%d\t%s\t%s\t%s\n", *id, strings.Join(idss, ","), opsStr, obs)
+	*id++
+}
+
+// emitDefaultsCase: TrunBox.AddSampleDefaultValues(tfhd, trex) on directly constructed boxes.
+func emitDefaultsCase(r *hx.Rng, id *int) {
+	tfhd := &mp4.TfhdBox{TrackID: 1}
+	tf := []string{"x", "x", "x"}
+	if r.Bool() {
+		tfhd.Flags |= 0x8
+		tfhd.DefaultSampleDuration = uint32(r.Range(0, 2000))
+		tf[0] = strconv.Itoa(int(tfhd.DefaultSampleDuration))
+	}
+	if r.Bool() {
+		tfhd.Flags |= 0x10
+		tfhd.DefaultSampleSize = uint32(r.Range(0, 300))
+		tf[1] = strconv.Itoa(int(tfhd.DefaultSampleSize))
+	}
+	if r.Bool() {
+		tfhd.Flags |= 0x20
+		tfhd.DefaultSampleFlags = uint32(r.Pick(0, 0x00010000, 0x02000000, 0x01010000))
+		tf[2] = strconv.Itoa(int(tfhd.DefaultSampleFlags))
+	}
+	var trex *mp4.TrexBox
+	tx := "x"
+	if r.Intn(3) != 0 {
+		trex = &mp4.TrexBox{TrackID: 1, DefaultSampleDuration: uint32(r.Range(0, 3000)), DefaultSampleSize: uint32(r.Range(0, 99)),
+			DefaultSampleFlags: uint32(r.Pick(0, 0x00010000, 0x02000000))}
+		tx = fmt.Sprintf("%d,%d,%d", trex.DefaultSampleDuration, trex.DefaultSampleSize, trex.DefaultSampleFlags)
+	}
+	trun := mp4.CreateTrun(0)
+	trun.Flags = 0x801 // data offset + cto
+	hd, hz, hf, hff := r.Bool(), r.Bool(), r.Bool(), r.Intn(3) == 0
+	if hd {
+		trun.Flags |= 0x100
+	}
+	if hz {
+		trun.Flags |= 0x200
+	}
+	if hf {
+		trun.Flags |= 0x400
+	}
+	n := r.Range(0, 5)
+	ss := make([]string, n)
+	for i := 0; i < n; i++ {
+		s := mp4.Sample{}
+		// fields not present in the box decode as zero
+		if hd {
+			s.Dur = uint32(r.Range(0, 4000))
+		}
+		if hz {
+			s.Size = uint32(r.Range(0, 500))
+		}
+		if hf {
+			s.Flags = uint32(r.Pick(0, 0x00010000, 0x02000000, 0x01010000))
+		}
+		trun.Samples = append(trun.Samples, s)
+	}
+	if hff && !hf {
+		ff := uint32(r.Pick(0x02000000, 0x00010000))
+		trun.SetFirstSampleFlags(ff)
+		if n > 0 {
+			trun.Samples[0].Flags = ff // what the decoder stores for sample 0
+		}
+	} else {
+		hff = false
+	}
+	for i, s := range trun.Samples {
+		ss[i] = fmt.Sprintf("%d:%d:%d", s.Dur, s.Size, s.Flags)
+	}
+	trun.AddSampleDefaultValues(tfhd, trex)
+	os := make([]string, n)
+	for i, s := range trun.Samples {
+		os[i] = fmt.Sprintf("%d:%d:%d", s.Dur, s.Size, s.Flags)
+	}
+	j := func(p []string) string {
+		if len(p) == 0 {
+			return "-"
+		}
+		return strings.Join(p, "/")
+	}
+	fmt.Fprintf(out, "D\td%d\t%s\t%d%d%d%d\t%s\t%s\t%s\n", *id, strings.Join(tf, ","), b2i(hd), b2i(hz), b2i(hf), b2i(hff), tx, j(ss), j(os))
+	*id++
+}
+
+// ---------------------------------------------------------------- search
+func searchRest(seed uint64, n int, t tools, evals *int, outcomes map[string]int) {
+	r := hx.NewRng(seed ^ 0x5ea7c4)
+	if t.reseg != "" {
+		for _, w := range fixedResegWitnesses() {
+			outcomes["reseg:"+runResegWitness(w, t, evals)]++
+		}
+		for i := 0; i < n; i++ {
+			fs := genFragSpec(r, 40)
+			if i%50 == 49 {
+				fs.styp = false
+			}
+			outcomes["reseg:"+checkReseg(fs, genResegD(r, fs), t, evals)]++
+		}
+	}
+	for i := 0; i < 2*n; i++ {
+		fs := genFragSpec(r, 40)
+		outcomes["fragy:"+checkFragmentify(fs, genFragyDur(r, fs), evals)]++
+	}
+	if t.combine != "" {
+		for i := 0; i < n/2+1; i++ {
+			v, a := genCombinePair(r)
+			outcomes["comb:"+checkCombine(v, a, t, evals)]++
+		}
+	}
+}
+
+func fixedResegWitnesses() []string {
+	return []string{
+		// first sample already beyond the first boundary: an empty first segment, then everything
+		"reseg|d=10|v=1,ts=1000,styp=1,opt=0,tid=1,segs=3,samples=100:40:0:2000000:5/140:40:0:10000:6/180:40:0:2000000:7",
+		// fragmented input that does not start its segments with styp
+		"reseg|d=80|v=1,ts=1000,styp=0,opt=0,tid=1,segs=2/2,samples=0:40:0:2000000:5/40:40:0:10000:6/80:40:0:2000000:7/120:40:0:10000:3",
+	}
+}
+
+func runResegWitness(w string, t tools, evals *int) string {
+	f := strings.SplitN(w, "|", 3)
+	d, _ := strconv.ParseUint(strings.TrimPrefix(f[1], "d="), 10, 64)
+	fs, err := parseFragWitness(f[2])
+	if err != nil {
+		fmt.Fprintln(os.Stderr, err)
+		os.Exit(2)
+	}
+	return checkReseg(fs, d, t, evals)
+}
+
+func runWitnessRest(w string, t tools, evals *int, verbose bool) {
+	switch {
+	case strings.HasPrefix(w, "reseg|"):
+		fmt.Fprintf(out, "OUTCOME\t%s\n", runResegWitness(w, t, evals))
+	case strings.HasPrefix(w, "fragy|"):
+		f := strings.SplitN(w, "|", 3)
+		d, _ := strconv.ParseUint(strings.TrimPrefix(f[1], "d="), 10, 32)
+		fs, err := parseFragWitness(f[2])
+		if err != nil {
+			fmt.Fprintln(os.Stderr, err)
+			os.Exit(2)
+		}
+		fmt.Fprintf(out, "OUTCOME\t%s\n", checkFragmentify(fs, uint32(d), evals))
+	case strings.HasPrefix(w, "comb|"):
+		f := strings.SplitN(w, "|", 3)
+		v, err1 := parseFragWitness(f[1])
+		a, err2 := parseFragWitness(f[2])
+		if err1 != nil || err2 != nil {
+			fmt.Fprintln(os.Stderr, err1, err2)
+			os.Exit(2)
+		}
+		fmt.Fprintf(out, "OUTCOME\t%s\n", checkCombine(v, a, t, evals))
+	default:
+		fmt.Fprintln(os.Stderr, "unknown witness kind")
+		os.Exit(2)
+	}
+}
